@@ -435,4 +435,70 @@ Lemma serve_never_out_of_fuel : forall st env bs,
   r_end (serve maxbuf cfg st env bs) <> EndOutOfFuel.
 Proof. intros. unfold serve. apply read_loop_never_out_of_fuel. lia. Qed.
 
+(* ---------------------------------------------------------------- the awaiting caller's view *)
+
+(* What the caller awaiting frame f is handed (Message.data on the delivered Message, with the
+   order of checks [sf]): exactly f's payload bytes under f's type, or an error — and an error
+   only for a payload beyond the limit.  Never a success with other bytes. *)
+Definition caller_exact (sf : bool) (f : frame) (d : dispatch) : Prop :=
+  forall r, d_reply d = Some r ->
+    match caller_data maxbuf sf (d_hdr d) r with
+    | Some data => data = f_payload f /\ h_typ (d_hdr d) = f_typ f
+    | None => maxbuf < len (f_payload f)
+    end.
+
+Lemma expected_dispatch_caller_exact : forall aw e f,
+  caller_exact true f (expected_dispatch aw e f).
+Proof.
+  intros aw e f r. unfold expected_dispatch. cbn [d_reply d_hdr frame_header].
+  destruct (awaited aw e f); [|discriminate].
+  destruct (N.leb_spec (len (f_payload f)) maxbuf) as [Hle|Hgt];
+    intro Hr; inversion Hr; subst; clear Hr; unfold caller_data, frame_header; cbn [h_len h_typ andb].
+  - destruct (N.ltb_spec maxbuf (len (f_payload f))); [lia|]. split; reflexivity.
+  - destruct (N.ltb_spec maxbuf (len (f_payload f))); [assumption|lia].
+Qed.
+
+Lemma expected_log_caller_exact : forall fs st env i,
+  Forall2 (caller_exact true) fs (expected_log st env i fs).
+Proof.
+  induction fs as [|f fs IH]; intros; cbn [expected_log]; constructor.
+  - apply expected_dispatch_caller_exact.
+  - apply IH.
+Qed.
+
+Lemma serve_caller_exact : forall fs st env rest, Forall frame_wf fs ->
+  exists l tail,
+    r_log (serve maxbuf cfg st env (concat (map frame_bytes fs) ++ rest)) = l ++ tail /\
+    Forall2 (caller_exact true) fs l /\
+    tail = r_log (serve_from (state_after st env O fs) env (length fs) rest).
+Proof.
+  intros. rewrite serve_alignment by assumption.
+  eexists. eexists. split; [reflexivity|]. split; [apply expected_log_caller_exact|reflexivity].
+Qed.
+
+(* with the shortcuts first, EVERY awaited over-limit frame is handed to its caller as a
+   success with no bytes *)
+Lemma expected_dispatch_nil_first_empty : forall aw e f,
+  awaited aw e f = true -> maxbuf < len (f_payload f) ->
+  caller_handed maxbuf false (expected_dispatch aw e f) = Some (Some (f_typ f, [])).
+Proof.
+  intros aw e f Ha Hgt. unfold caller_handed, expected_dispatch. cbn [d_reply d_hdr frame_header].
+  rewrite Ha. destruct (N.leb_spec (len (f_payload f)) maxbuf); [lia|]. reflexivity.
+Qed.
+
 End Spec.
+
+(* witness for the shortcut-first order of Message.data: limit 4, an awaited reply with 5
+   payload bytes is handed to its caller as (type 12, no bytes, no error) *)
+Lemma wit_nil_first_empty_success :
+  let cfg := mkConfig (fun _ => false) false (fun _ => false) in
+  let f := mkFrame 0 1 12 7 [1; 2; 3; 4; 5] in
+  let r := serve 4 cfg (mkState [7] false) (fun _ => mkEnv [] (HRead 0) false) (frame_bytes f) in
+  frame_wf f /\
+  exists d, r_log r = [d] /\ d_hdr d = frame_header f /\
+            caller_handed 4 false d = Some (Some (12, [])) /\ f_payload f <> [] /\
+            caller_handed 4 true d = Some None.
+Proof.
+  cbv zeta. split; [constructor; vm_compute; reflexivity|].
+  eexists. split; [vm_compute; reflexivity|]. vm_compute. repeat split; try reflexivity. discriminate.
+Qed.
